@@ -212,11 +212,19 @@ def coq_project():
         sh(["coq_makefile", "-f", "_CoqProject", "-o", "Makefile"], cwd=COQ, check=True)
 
 
-def coq_make(targets, timeout=3000):
-    """make -k the given .vo targets; returns (ok, output)"""
+def coq_make(targets, timeout=1200, regen=None):
+    """make -k the given .vo targets; returns (ok, output).  `regen` (writes coq/gen/*.v from the source tree) runs under the
+    same lock as the build, so that no other run can regenerate or compile between the two."""
     with Lock("coq"):
+        if regen:
+            regen()
         coq_project()
-        rc, out = sh(["timeout", str(timeout), "make", "-k", "-j%d" % NPROC, *targets], cwd=COQ)
+        # every single file is bounded too (a regenerated definition can make a proof script run for ever): 420 s per file
+        rc, out = sh(["timeout", "-k", "5", str(timeout), "make", "-k", "-j%d" % NPROC, "COQC=timeout -k 5 420 coqc", *targets], cwd=COQ)
+        if rc in (124, 137):
+            # make is gone; the compilers it started may not be: nothing may keep compiling in /verif/coq behind our back
+            sh(["pkill", "-x", "coqc"], cwd=COQ)
+            out += "\nError: build timed out after %d s" % timeout
     return rc == 0, out
 
 
